@@ -10,7 +10,8 @@ Inductive walk_err :=
 | WeMissing (i : id)        (* ChunkMissing{id} from RemoveChunk *)
 | WeErrno (e : errno)       (* lstat / readdir / os.Remove failure handed back by the callback *)
 | WeFuel                    (* model artefact: recursion budget exhausted (never with fuel > tree depth) *)
-| WeBlocked.                (* waits forever for a pooled connection (only the pre-9329890 SFTP prune) *)
+| WeBlocked                 (* waits forever for a pooled connection (only the pre-9329890 SFTP prune) *)
+| WeInterrupted.            (* Interrupted{}: the context was found cancelled *)
 
 (* filepath.Walk(root, fn) for callbacks that return the error they are given and nil for directories
    (both Prune and Verify do).  X is the callback's state; [fs_of] is the file system the walk itself
@@ -69,10 +70,14 @@ Section Prune.
 
   (* ---------- LocalStore.Prune (tmp_rule = true) and SFTPStore.Prune (tmp_rule = false: the same
      callback without the temp-file rule) ---------- *)
-  Definition prune_file_gen (tmp_rule : bool) (st : store) (keep : id -> bool) (pstr : bytes) (p : path) (s : node)
-    : node * option walk_err :=
+  (* [stop p]: the context is found cancelled when the callback for p runs (select on ctx.Done() at the
+     top of the callback; every later callback is then never reached, so a function of the path is enough
+     to place the cancellation anywhere in the run) *)
+  Definition prune_file_gen (tmp_rule : bool) (stop : path -> bool) (st : store) (keep : id -> bool)
+             (pstr : bytes) (p : path) (s : node) : node * option walk_err :=
     let nm := last p [] in                       (* filepath.Base(path) *)
-    if tmp_rule && has_prefix nm tmpChunkPrefix_bytes then
+    if stop p then (s, Some WeInterrupted)
+    else if tmp_rule && has_prefix nm tmpChunkPrefix_bytes then
       (* _ = os.Remove(path) *)
       (match remove p s with Ok s' => s' | Err _ => s end, None)
     else
@@ -87,16 +92,17 @@ Section Prune.
                end
       end.
 
-  Definition prune_gen (tmp_rule : bool) (fuel : nat) (st : store) (basestr : bytes) (keep : id -> bool) (s : node)
-    : node * option walk_err :=
-    walk_root (fun s => s) (prune_file_gen tmp_rule st keep) fuel basestr (st_base st) s.
+  Definition prune_gen (tmp_rule : bool) (stop : path -> bool) (fuel : nat) (st : store) (basestr : bytes)
+             (keep : id -> bool) (s : node) : node * option walk_err :=
+    walk_root (fun s => s) (prune_file_gen tmp_rule stop st keep) fuel basestr (st_base st) s.
 
-  Definition prune_file := prune_file_gen true.
-  Definition prune := prune_gen true.
+  Definition never (_ : path) : bool := false.
+  Definition prune_file := prune_file_gen true never.
+  Definition prune := prune_gen true never.
   (* SFTPStore.Prune (after 9329890) stats and removes over the connection the walk holds: it is the
      callback above and never touches the pool again. *)
-  Definition sftp_prune_file := prune_file_gen false.
-  Definition sftp_prune := prune_gen false.
+  Definition sftp_prune_file := prune_file_gen false never.
+  Definition sftp_prune := prune_gen false never.
 
   (* SFTPStore.Prune as it was before 9329890: the walk holds one of the [pool] connections and the
      removal goes through s.RemoveChunk, which takes another one: with pool <= 1 it waits forever. *)
@@ -192,14 +198,6 @@ End Prune.
 
 (* ---------- S3Store ---------- *)
 
-(* strings.Split(s, "/") *)
-Fixpoint split_slash_aux (cur : bytes) (s : bytes) : list bytes :=
-  match s with
-  | [] => [rev cur]
-  | c :: r => if N.eqb c slash then rev cur :: split_slash_aux [] r else split_slash_aux (c :: cur) r
-  end.
-Definition split_slash (s : bytes) : list bytes := split_slash_aux [] s.
-
 Definition trim_prefix (s pre : bytes) : bytes := if has_prefix s pre then skipn (length pre) s else s.
 
 (* S3Store.nameFromID: prefix ++ sid[0:4] ++ "/" ++ sid ++ ext *)
@@ -238,3 +236,22 @@ Fixpoint s3_prune_loop (prefix : bytes) (unc : bool) (keep : id -> bool) (listed
 (* ListObjectsV2(bucket, prefix, recursive): the keys that start with prefix *)
 Definition s3_prune (prefix : bytes) (unc : bool) (keep : id -> bool) (bucket : list bytes) : list bytes :=
   s3_prune_loop prefix unc keep (filter (fun k => has_prefix k prefix) bucket) bucket.
+
+(* S3Store.Prune with cancellation: [stop k] = the context is found cancelled when object k comes up
+   (select on ctx.Done() per listed object); the flag says Interrupted{} was returned. *)
+Fixpoint s3_prune_loop_c (stop : bytes -> bool) (prefix : bytes) (unc : bool) (keep : id -> bool)
+         (listed : list bytes) (bucket : list bytes) : list bytes * bool :=
+  match listed with
+  | [] => (bucket, false)
+  | k :: r =>
+      if stop k then (bucket, true)
+      else match s3_id_from_name prefix unc k with
+           | None => s3_prune_loop_c stop prefix unc keep r bucket
+           | Some i =>
+               if keep i then s3_prune_loop_c stop prefix unc keep r bucket
+               else s3_prune_loop_c stop prefix unc keep r (remove_key (s3_name prefix unc i) bucket)
+           end
+  end.
+Definition s3_prune_c (stop : bytes -> bool) (prefix : bytes) (unc : bool) (keep : id -> bool) (bucket : list bytes)
+  : list bytes * bool :=
+  s3_prune_loop_c stop prefix unc keep (filter (fun k => has_prefix k prefix) bucket) bucket.
